@@ -1,14 +1,15 @@
-(* NEEDS: CalFile/CalFileModel.vo CalFile/NumText.vo Base/QcI.vo *)
-(* Extraction of the calibration-file loader model (C07, C09 cal half).  Only ExtrOcamlBasic's
-   directives are in effect; string, ascii, Z, Q stay as the extracted inductive types. *)
+(* NEEDS: CalFile/CalFileModel.vo CalFile/CalSaveModel.vo CalFile/NumText.vo Base/QcI.vo *)
+(* Extraction of the calibration-file loader model and of the saver model (C07, C09 cal half).  Only
+   ExtrOcamlBasic's directives are in effect; string, ascii, Z, Q stay as the extracted inductive types. *)
 Require Extraction.
 Require Import ExtrOcamlBasic.
 Require Import List ZArith QArith Qcanon String.
-Require Import LV.Base.CField LV.Base.QcI LV.CalFile.NumText LV.CalFile.CalFileModel.
+Require Import LV.Base.CField LV.Base.QcI LV.CalFile.NumText LV.CalFile.CalFileModel LV.CalFile.CalSaveModel.
 Extraction Language OCaml.
 Set Extraction KeepSingleton.
 Extraction "models_calfile.ml"
   QI qre qim qq Qnum Qden this
-  load wf_cal wf_shape wf_cells mk_layout l_terms psteps emit_entry parse_entries
-  c_name c_type c_rows c_cols c_freqs c_z0 c_data
+  load wf_cal wf_shape wf_cells mk_layout l_terms psteps parse_entries doc_gprops
+  c_name c_type c_rows c_cols c_freqs c_z0 c_props c_data
+  save_doc save_vline save_cal save_entry
   len_e len_a len_d max_text fits first_unfit buf_size.
